@@ -203,7 +203,7 @@ def tyOf (v : V) : String :=
   | .graph _ => "graph"
   | .param _ => "param"
   | .floats _ => "floats"
-  | .null => "dev"
+  | .null => "null"
   | _ => "other"
 
 def look (env : Env) (a : String) (this : Nat) : TVal :=
@@ -366,7 +366,7 @@ def runCalls (t : Table) (node : Bool) (this : Nat) : Nat → List Call → Env 
         else do
           let n ← asNat (look env c.loop this).v
           if n > 4096 then stuck "loop too long" else pure ((List.range n).map fun k => u32 k)
-      let env' ← runLoop t node this fuel grp c.lvar items env
+      let env' ← runIter t node this fuel grp c.lvar items env
       runCalls t node this fuel rest' env'
     else do
       let (env', r) ← runCall t node this fuel c env
@@ -374,13 +374,13 @@ def runCalls (t : Table) (node : Bool) (this : Nat) : Nat → List Call → Env 
       | some v => pure (env', some v)
       | none => runCalls t node this fuel rest env'
 
-def runLoop (t : Table) (node : Bool) (this : Nat) : Nat → List Call → String → List V → Env → M Env
+def runIter (t : Table) (node : Bool) (this : Nat) : Nat → List Call → String → List V → Env → M Env
   | 0, _, _, _, _ => stuck "fuel"
   | _ + 1, _, _, [], env => pure env
   | fuel + 1, grp, lvar, x :: xs, env => do
     let env1 := bind env lvar ⟨x, tyOf x⟩
     let env2 ← runGroup t node this fuel grp env1
-    runLoop t node this fuel grp lvar xs env2
+    runIter t node this fuel grp lvar xs env2
 
 /-- the body of a loop (no nested loops in the table) -/
 def runGroup (t : Table) (node : Bool) (this : Nat) : Nat → List Call → Env → M Env
@@ -528,9 +528,9 @@ def runCall (t : Table) (node : Bool) (this : Nat) : Nat → Call → Env → M 
           (ctorEnv.lookup p.2).map fun v => (p.1, (⟨v.v, ((o.attrs.find? (·.name == p.1)).map (·.ty)).getD v.ty⟩ : TVal))
         let _ ← runBody t false this fuel o.ctorBody (attrEnv ++ ctorEnv)
         -- the argument nodes
-        let nodes : List NV ← match args.map (·.v) with
-          | [.nodes l] => pure l
-          | vs => vs.mapM fun v => match v with | .node n => pure n | _ => stuck "add_operator: node expected"
+        let nodes : List NV ← match (args.map (·.v) : List V) with
+          | [V.nodes l] => pure l
+          | vs => vs.mapM fun v => match v with | V.node n => pure n | _ => stuck "add_operator: node expected"
         -- 1. number of arguments
         let okN := match o.argn with
           | .num k => nodes.length == k
@@ -543,8 +543,8 @@ def runCall (t : Table) (node : Bool) (this : Nat) : Nat → Call → Env → M 
         -- 3. device of the results
         let dev ← if o.device != "" then
             (match (attrEnv.lookup "device_").map (·.v), (attrEnv.lookup "param_").map (·.v) with
-             | some (.dev d), _ => pure d
-             | _, some (.param p) => (match st.params.lookup p with | some tv => pure tv.dev | none => stuck "param")
+             | some (V.dev d), _ => pure d
+             | _, some (V.param p) => (match st.params.lookup p with | some tv => pure tv.dev | none => stuck "param")
              | _, _ => stuck "get_device")
           else match nodes with
             | n :: _ => pure n.dev
@@ -556,10 +556,10 @@ def runCall (t : Table) (node : Bool) (this : Nat) : Nat → Call → Env → M 
         let shapes : List Shape ← match o.retn with
           | .num k => (List.range k).mapM fun i =>
               match (envS.lookup (if i == 0 then "y0" else s!"y{i}")).map (·.v) with
-              | some (.shape s) => pure s
+              | some (V.shape s) => pure s
               | _ => stuck "FWD_SHAPE did not assign y"
           | .attr _ => (match (envS.lookup "y[i]").map (·.v) with
-              | some (.shapes l) => pure l
+              | some (V.shapes l) => pure l
               | _ => pure [])
           | .unsupported _ => stuck "retn"
         -- 5. commit
@@ -769,6 +769,11 @@ def varTokens (toks : List String) : List String :=
 
 /-- the five arithmetic functions and operators take `x k`, `k x` or `a b` -/
 def arithSig (f : String) (toks : List String) : Option (String × String × List K) :=
+  if f == "softmax_cross_entropy" then
+    (match toks with
+     | [_, b, _] => some ("fn", f, if b.startsWith "I:" then [.x, .ids, .u] else [.x, .x, .u])
+     | _ => none)
+  else
   let fns := ["add", "subtract", "multiply", "divide", "pow"]
   let ops := [("op+", "+"), ("op-", "-"), ("op*", "*"), ("op/", "/")]
   match toks with
